@@ -88,6 +88,12 @@ void check_ops(vh::Ctx& c, Rng& r, int d, const Vec& a, const Vec& b, double s, 
   { SU_vector T(A); T -= B; CHECK_OP("sub_assign", T, a[k] - b[k], 0); }
   { SU_vector T(A); T *= s; CHECK_OP("mul_assign", T, a[k] * s, 0); }
   if (s != 0) { SU_vector T(A); T /= s; CHECK_OP("div_assign", T, a[k] / s, 2); }
+  // the same object on both sides
+  CHECK_OP("add_self", A + A, a[k] + a[k], 0);
+  CHECK_OP("sub_self", A - A, a[k] - a[k], 0);
+  { SU_vector T(A); T += T; CHECK_OP("add_assign_self", T, a[k] + a[k], 0); }
+  { SU_vector T(A); T -= T; CHECK_OP("sub_assign_self", T, a[k] - a[k], 0); }
+  { SU_vector T(A); T = T; CHECK_OP("self_assign", T, a[k], 0); }
   // operands untouched
   c.eval();
   if (A.GetComponents() != a || B.GetComponents() != b) c.violation("C01:op:operand-modified", vh::fmt("[%s] d=%d an operand changed", cls, d));
